@@ -124,4 +124,36 @@ def judgePolicy (kind : Kind) : SpecSt → Nat → List (POp × Option Key × Li
     | some sig => some (sig, i)
     | none => judgePolicy kind s' (i + 1) rest
 
+/-- the history after a judged prefix (what was called and what `evict` returned) -/
+def SpecSt.after (s : SpecSt) : List (POp × Option Key × List Key) → SpecSt
+  | [] => s
+  | (op, res, _) :: rest => (s.step op res).after rest
+
+/-- A call that *raised*.  The five methods of the protocol are total: on a well-formed history none
+    of them has a reason to fail (the model `Pol.step` is a total function and the unmodified code
+    never raises; `policy_keys_eq_cache_keys` is what makes e.g. `list.remove` inside `on_remove`
+    safe).  An exception is what stale bookkeeping typically turns into one call later, so it is
+    judged — after the clauses above have been applied to the calls that did return. -/
+def judgeRaised (s : SpecSt) (op : POp) : Option String :=
+  if (s.step op none).wf then some "policy/call/raised" else none
+
+/-- whole history, possibly ending in a call that raised -/
+def judgePolicyExc (kind : Kind) (hist : List (POp × Option Key × List Key)) (raised : Option POp) :
+    Option (String × Nat) :=
+  match judgePolicy kind {} 0 hist with
+  | some r => some r
+  | none =>
+    match raised with
+    | none => none
+    | some op =>
+      if !(SpecSt.after {} hist).wf then none
+      else (judgeRaised (SpecSt.after {} hist) op).map fun sig => (sig, hist.length)
+
+/-- The `clear` law (`policy_clear_is_fresh`), judged on the implementation's own answers: the calls
+    after the last `clear()` were replayed on a freshly constructed policy of the same kind; every
+    call must have been answered the same way (returned key, tracked keys, eviction order from
+    there).  `main`/`fresh` are the two answer lines of each such call, with its index. -/
+def judgeFresh (pairs : List (Nat × List String × List String)) : Option (String × Nat) :=
+  (pairs.find? fun p => p.2.1 != p.2.2).map fun p => ("policy/clear/not-fresh", p.1)
+
 end HappyModel.C16
